@@ -240,10 +240,12 @@ def run_case(case, gen_rng=None, res=None):
                     choices += ["stop"]
                     free = g.free_addrs(n)
                     if free:
-                        choices += ["create"] * 2
+                        room = (runner.counts(n)["virt"] + 2 <= cap) and (runner.counts(peer)["virt"] + 1 <= cap)
+                        if room or rng.random() < 0.12:   # mostly when both ends have room (else: F13 class)
+                            choices += ["create"] * 3
                         if pending[n] > 0:
-                            choices += ["recv"] * 4
-                        elif rng.random() < 0.15:
+                            choices += ["recv"] * 5
+                        elif rng.random() < 0.08:
                             choices += ["recv"]          # nothing was sent: time-out
                 c = rng.choice(choices)
                 budget -= 1
@@ -392,7 +394,7 @@ def run(ctx):
             case = dict(case)
             viol, runner = run_case(case, res=res)
             handle(case, viol, runner)
-        n = ctx.scale(60, 1200)
+        n = ctx.scale(450, 6000)
         for _ in range(n):
             case = {"seed": rng.randrange(1 << 30), "cap": rng.choice([2, 3, 3, 4, 5]), "ngens": rng.randrange(1, 6)}
             viol, runner = run_case(case, gen_rng=random.Random(rng.randrange(1 << 30)), res=res)
